@@ -1,9 +1,11 @@
 """C10 -- all creators and all hashers agree on the same payload."""
 from props import v2_common as V
+from props import creators_common as cc
 
 GEN_FILES = []
-EXTRA_TARGETS = ["Extract/ExtractV2.vo"]
-AREAS = ["v2"]
+EXTRA_TARGETS = ["Extract/ExtractV2.vo", "Extract/ExtractCreators.vo"]
+AREAS = ["v2", "creators"]
+CREATOR_KINDS = ["v2-class", "v2-asm", "hybrid-class", "hybrid-asm"]      # both sides of both agreement theorems
 RULE = ("hashers: HasherV2, HasherHybrid (padding on/off) and FileHasher (hybrid x padding, iterated to exhaustion) are run on the "
         "same file and compared with each other (root, piece layer, yielded layer hashes, v1 pieces, padding description; no v1 "
         "side without the hybrid flag) and, field by field including the iterator's end flag, with their extracted Coq models; "
@@ -12,8 +14,31 @@ RULE = ("hashers: HasherV2, HasherHybrid (padding on/off) and FileHasher (hybrid
         "(TorrentAssembler v2, TorrentFileV2), (TorrentAssembler hybrid, TorrentFileHybrid) and, on a third of the trees, "
         "(`create --meta-version 2|3`, class-based creator) must have identical info dictionaries and piece layers.  "
         "A case is non-trivial when it is distinct and hits at least one boundary class.")
-TRUSTED_BASE = V.TRUSTED_BASE
-ASSUMPTIONS = V.ASSUMPTIONS
+RULE += ("  Unit correspondence of Model/Creators.v (the creator-level theorems rest on it): TorrentFileV2, TorrentAssembler "
+         "(meta version 2), TorrentFileHybrid and TorrentAssembler (meta version 3), all four on every tree so that both sides "
+         "of each agreement theorem meet the same input, write a metafile for "
+         "generated content trees (single file / flat / nested to depth 3 / a directory next to a sibling whose name sorts between "
+         "it and its children / identical files / >= 2 multi-piece files / empty directories / names differing only in case / "
+         "non-ASCII names; sizes from {0,1,B+-1,B,pl+-1,pl,2pl+-1,...}), an option subset, one of 25 spellings of the path, a "
+         "patched "
+         "clock and the enumeration order of every directory fixed by a runner-side patch of os.listdir/os.scandir and handed to "
+         "the model as the order of its entry lists; the extracted creator composed with Model/Bencode.v encode predicts the BYTES "
+         "of the written file -- compared byte for byte.")
+TRUSTED_BASE = V.TRUSTED_BASE + [
+    "hand-written models Model/Creators.v (the _traverse / assemble methods of TorrentFileV2, TorrentFileHybrid and "
+    "TorrentAssembler, MetaFile.__init__, sort_meta), Model/Bencode.v (pyben's encoder) and Spec/PathSem.v (name and path "
+    "components from the path string) tied to torrent.py by differential execution: extracted OCaml vs the BYTES the creator "
+    "writes, under a controlled enumeration order (runner-side patch of os.listdir/os.scandir; Path.iterdir of CPython 3.12 calls "
+    "os.listdir), a patched clock (torrentfile.torrent.datetime) and, for cases marked patched_constant, a patched "
+    "torrentfile.hasher.BLOCK_SIZE",
+]
+ASSUMPTIONS = [a for a in V.ASSUMPTIONS if not a.startswith("creator-level statements")] + [
+    "creator-level theorems (Props file, from Proofs/CreatorsProofs*.v) are about Model/Creators.v, which the unit correspondence "
+    "ties to torrent.py byte for byte; the same statements are also checked end to end against the reference oracle",
+    "file names are valid UTF-8 without '/', distinct per directory (wf_node); the payload contains at least one file",
+]
+
+UNIT_N = (72, 480)          # content trees of the creators unit correspondence (quick, thorough)
 
 
 def run(ctx, model_ok):
@@ -24,7 +49,13 @@ def run(ctx, model_ok):
     if ctx.tier == "thorough":
         ctx.exhaustive = True
     V.require_classes(ctx, V.REQUIRED_V2 + V.REQUIRED_CREATORS)
+    # the creators unit correspondence counts its own boundary classes (after the end-to-end requirement above)
+    quick = ctx.tier == "quick"
+    cc.unit_for(ctx, model_ok, CREATOR_KINDS, n=UNIT_N[0] if quick else UNIT_N[1], budget=90000 if quick else 300000,
+                required=cc.REQUIRED_CLASSES)
 
 
 def replay(ctx, data):
+    if data.get("disagreements") or data.get("broken") or "what" in data:
+        return cc.replay_disagreements(ctx, data, "C10")
     return V.replay_case(ctx, data, "C10")
